@@ -107,10 +107,18 @@ def run(repo, rep, tier):
     rep.rule("R03.5", "the only rewrite of the source before tokenising is "
                       "the newline normalisation, outside XML mode")
     _totality(repo, rep)
+    _rex_table(repo, rep)
     _iterators(repo, rep)
     _fields(repo, rep)
     _verbatim(repo, rep)
     _newlines(repo, rep)
+    from . import c17, c18
+    # an ordinary attribute is kept unless it is a declaration *of* a
+    # template namespace
+    L.borrow(repo, rep, "R03.3", "C18", c18._zip, ("drop-test",))
+    # XML mode (no newline rewriting) follows the XML declaration, which is
+    # consulted before the meta element
+    L.borrow(repo, rep, "R03.5", "C17", c17._order, ("decl-second",))
 
 
 def _totality(repo, rep):
@@ -175,6 +183,46 @@ def _totality(repo, rep):
     rep.check(not info.nullable, "R03.1", site,
               "the lexer regex cannot match the empty string (no empty "
               "tokens, progress at every step)", construct="not-nullable")
+
+
+def _rex_table(repo, rep, rule="R03.1", only=None):
+    """Totality (R03.1) says every character lands in some token; *which*
+    token is decided by the pieces of the shallow-parsing grammar (REX): a
+    comment runs to the first '-->', a CDATA section to the first ']]>', an
+    attribute needs white space in front ...  The table is a published
+    constant; the structure of every piece (its regular-expression syntax
+    tree, not its spelling) is compared with the reviewed reference in
+    chamlint/reference_rex.json."""
+    import json
+    import os
+    import re._parser as sp
+    ref_path = os.path.join(os.path.dirname(os.path.dirname(
+        os.path.abspath(__file__))), "reference_rex.json")
+    try:
+        with open(ref_path) as fh:
+            ref = json.load(fh)
+    except OSError as exc:
+        raise AnalysisError("reference_rex.json missing: %s" % exc)
+    res = fold_collector(repo)
+    missing = sorted(set(ref) - set(res))
+    rep.check(not missing, rule, TOK, "every piece of the reviewed "
+              "grammar table is still defined", construct="rex-pieces",
+              detail=str(missing))
+    n = 0
+    for name in sorted(ref):
+        if name not in res or (only is not None and name not in only):
+            continue
+        n += 1
+        try:
+            now = repr(sp.parse(res[name]))
+        except Exception as exc:
+            now = "unparsable: %s" % exc
+        rep.check(now == ref[name], rule, TOK + "." + name, "grammar "
+                  "piece %s has the reviewed structure" % name,
+                  construct="rex-piece:" + name,
+                  detail="pattern now: %s" % res[name][:120])
+    if n < (20 if only is None else len(only)):
+        raise AnalysisError("only %d grammar pieces found" % n)
 
 
 def _iterators(repo, rep):
